@@ -38,6 +38,10 @@ func c16Value(t *rapid.T, depth int) val.V {
 		n := gen.Int(t, "arrLen", 0, 4)
 		out := make([]val.V, n)
 		for i := range out {
+			if i > 0 && gen.Chance(t, "repeat", 25) {
+				out[i] = val.Clone(out[gen.Int(t, "repeatOf", 0, i-1)])
+				continue
+			}
 			out[i] = c16Value(t, depth+1)
 		}
 		return out
@@ -60,6 +64,12 @@ func c16Value(t *rapid.T, depth int) val.V {
 		// concatenations reach combinations the pool does not list
 		return gen.Pick(t, "p1", yamlPool) + gen.Pick(t, "p2", yamlPool)
 	default:
+		if gen.Chance(t, "bigString", 10) {
+			if s, ok := gen.BigValue(t).(string); ok {
+				return s
+			}
+			return strings.Repeat("word ", 400)
+		}
 		return gen.Pick(t, "plain", []string{"a", "b", "hello world", "x1"})
 	}
 }
@@ -79,6 +89,10 @@ func c16Doc(t *rapid.T) val.V {
 		n := gen.Int(t, "n", 0, 5)
 		out := make([]val.V, n)
 		for i := range out {
+			if i > 0 && gen.Chance(t, "repeat", 25) {
+				out[i] = val.Clone(out[gen.Int(t, "repeatOf", 0, i-1)])
+				continue
+			}
 			out[i] = c16Value(t, 1)
 		}
 		return out
@@ -232,6 +246,30 @@ func checkC16(c DocCase, r *rec.Rec) error {
 	}
 	if err := sameDoc(n3, v, "YAML round trip of "+jsonText); err != nil {
 		return viol(err)
+	}
+	// rendering under an array reading and reading back keeps the value under that reading
+	for _, rd := range []struct {
+		name string
+		opt  jd.Option
+	}{{"SET", jd.SET}, {"MULTISET", jd.MULTISET}} {
+		var ys2, js2 string
+		if msg, p := jdx.Guard(func() { ys2, js2 = n.Yaml(rd.opt), n.Json(rd.opt) }); p {
+			return viol(rec.Violated("rendering %s with %s panicked: %s", jsonText, rd.name, msg))
+		}
+		ny, err := jd.ReadYamlString(ys2)
+		if err != nil {
+			return viol(rec.Violated("jd cannot read its own YAML(%s) for %s: %v\nyaml:\n%s", rd.name, jsonText, err, ys2))
+		}
+		if !ny.Equals(n, rd.opt) || !n.Equals(ny, rd.opt) {
+			return viol(rec.Violated("YAML(%s) round trip of %s gives %s, not equal under %s\nyaml:\n%s", rd.name, jsonText, showText(ny.Json()), rd.name, ys2))
+		}
+		nj, err := jd.ReadJsonString(js2)
+		if err != nil {
+			return viol(rec.Violated("jd cannot read its own JSON(%s) for %s: %v", rd.name, jsonText, err))
+		}
+		if !nj.Equals(n, rd.opt) || !n.Equals(nj, rd.opt) {
+			return viol(rec.Violated("JSON(%s) round trip of %s gives %s, not equal under %s", rd.name, jsonText, showText(nj.Json()), rd.name))
+		}
 	}
 	// the same document from an independent YAML writer
 	ye := ref.YAMLEmit(v)
